@@ -1037,7 +1037,11 @@ class HistModel(c02.CappedModel):
     def run_ref(self, w, op):
         res = c02.CappedModel.run_ref(self, w, op)
         if op[0] == 'new':
-            w.vals.append(dict(w.ref.insts[-1].values))
+            # the fresh id is whatever the generator handed out (after a load it has advanced): take it over
+            inst = w.ref.insts[-1]
+            if 'Id' in inst.values:
+                inst.values['Id'] = w.handles[-1].Id
+            w.vals.append(dict(inst.values))
         return res
 
     def canon(self, w):
